@@ -330,3 +330,31 @@ def run(ctx, rep):
                     rep.undecided("C15.7", cons, f"width `{ast.unparse(nd.args[0])}` not traced to measured_qubits", loc)
     if n7 == 0:
         raise AnalysisError("C15.7: no padded bit-string conversion found in core/result.py")
+
+    # ------------------------------------------------------------ C15.8
+    rep.rule("C15.8", "a readout-collecting subcircuit starts from all-zero counts unless counts are handed in: the zero array is created exactly when none is given", floor=1)
+    n8 = 0
+    for f in ix.functions.values():
+        if f.module != "jaqalpaq.core.result" or f.name != "__init__" or isinstance(f.node, ast.Lambda):
+            continue
+        for st in iter_stmts(f.body):
+            if not isinstance(st, ast.If):
+                continue
+            zeros_body = any(isinstance(m, ast.Call) and isinstance(m.func, ast.Attribute) and m.func.attr == "zeros" for b in st.body for m in ast.walk(b))
+            zeros_else = any(isinstance(m, ast.Call) and isinstance(m.func, ast.Attribute) and m.func.attr == "zeros" for b in st.orelse for m in ast.walk(b))
+            if not (zeros_body or zeros_else):
+                continue
+            n8 += 1
+            cons = construct_of(f, "zero-counts-when-none-given")
+            t = st.test
+            is_none = isinstance(t, ast.Compare) and len(t.ops) == 1 and isinstance(t.comparators[0], ast.Constant) and t.comparators[0].value is None
+            pos = is_none and isinstance(t.ops[0], ast.Is)
+            neg = is_none and isinstance(t.ops[0], ast.IsNot)
+            if (pos and zeros_body) or (neg and zeros_else):
+                rep.ok("C15.8", cons, f"`{ast.unparse(t)}` selects the zero array", f"{f.path}:{st.lineno}")
+            elif is_none:
+                rep.violation("C15.8", cons, f"`{ast.unparse(t)}`: the zero array replaces counts that WERE handed in, and None is kept when none were: relative frequencies are not the counts of the recorded readouts (or accept_readout fails on None)", f"{f.path}:{st.lineno}")
+            else:
+                rep.undecided("C15.8", cons, "test not recognised", f"{f.path}:{st.lineno}")
+    if n8 == 0:
+        raise AnalysisError("C15.8: no zero-initialised count array found in core/result.py")
